@@ -194,3 +194,41 @@ package tcp
 //@   loop 2 invariant forall(k, i + 2, n + 1, sackAfter(sack.Blocks[k], rcvNxt) && sackValid(sack.Blocks[k]))
 //@   loop 2 invariant sbefore(rcvNxt, newSB.Start) || newSB.Start - rcvNxt == 0x80000000
 //@   modifies sack.Blocks, sack.NumBlocks
+
+// ---------------------------------------------------------------------------
+// The sender's transmission path (C05, C04). Emission is counted in ghost state at the
+// hand-over to the network layer (endpoint.sendRaw, whose body - option building and the
+// route write - is outside the verified part): ghost(sentNonFin) counts segments without
+// FIN, ghost(sentFin) segments with FIN.
+
+// Validity of a connected endpoint's sender (type invariant of initialised objects).
+//@ define sndOK(s) = s != nil && s.ep != nil && s.ep.rcv != nil && s.ep.rcv.ep != nil && s.resendTimer.timer != nil && s.ep.keepalive.timer.timer != nil
+
+//@ func (*endpoint).sendRaw props C05 C04
+//@   trusted
+//@   ensures ghost(sentNonFin) == old(ghost(sentNonFin)) + ite(flags & flagFin == 0, 1, 0)
+//@   ensures ghost(sentFin) == old(ghost(sentFin)) + ite(flags & flagFin != 0, 1, 0)
+//@   modifies ghost(sentNonFin), ghost(sentFin)
+
+// The advertised right edge never moves backwards (serial order) and the returned window is
+// the distance to it, scaled.
+//@ func (*receiver).getSendParams props C04 C05
+//@   requires r != nil && r.ep != nil
+//@   ensures rcvNxt == r.rcvNxt && rcvWnd == seqnum.Size(r.rcvAcc - r.rcvNxt) >> r.rcvWndScale
+//@   ensures r.rcvAcc == old(r.rcvAcc) || (sbefore(old(r.rcvAcc), r.rcvAcc) || r.rcvAcc - old(r.rcvAcc) == 0x80000000)
+//@   modifies r.rcvAcc
+
+//@ func (*sender).sendSegment props C05 C04
+//@   requires s != nil && s.ep != nil && s.ep.rcv != nil && s.ep.rcv.ep != nil
+//@   ensures ghost(sentNonFin) == old(ghost(sentNonFin)) + ite(flags & flagFin == 0, 1, 0)
+//@   ensures ghost(sentFin) == old(ghost(sentFin)) + ite(flags & flagFin != 0, 1, 0)
+//@   ensures s.maxSentAck == s.ep.rcv.rcvNxt
+//@   modifies s.lastSendTime, s.rttMeasureTime, s.maxSentAck, s.ep.rcv.rcvAcc, ghost(sentNonFin), ghost(sentFin)
+
+//@ func (*endpoint).disableKeepaliveTimer props C05 C04
+//@   requires e != nil
+//@   modifies e.keepalive.timer.state
+
+//@ func (*endpoint).resetKeepaliveTimer props C05 C04
+//@   requires e != nil && e.keepalive.timer.timer != nil
+//@   modifies e.keepalive.unacked, e.keepalive.timer.state, e.keepalive.timer.target, e.keepalive.timer.runtimeTarget
